@@ -559,6 +559,12 @@ def r12(ctx, rep):
     rep.check(n_probe >= 1, "probe-site", f"expected the delimiter-probing loop of multi_quoted_string, found {n_probe}", file=f["file"], line=f["l"], fn=f["path"])
 
 
+def r13(ctx, rep):
+    # two literals of different kinds (a raw string and a string, an integer and a float) are not folded with Rust's `==`: the database compares their VALUES
+    import C02
+    rep.borrowed(C02.r7, ctx, "C08.R13", "comparisons of literals are folded only between literals of the same kind", only=r"same-kind")
+
+
 def run(ctx, rep):
-    for r in (r1, r2, r3, r4, r5, r6, r7, r8, r9, r10, r11, r12):
+    for r in (r1, r2, r3, r4, r5, r6, r7, r8, r9, r10, r11, r12, r13):
         rep.guard(r, ctx)
